@@ -34,7 +34,8 @@ RULE = ("EXHAUSTIVE part: every string over {a, U+FF25 (width 2), U+0300 (width 
         "and x + x build) and as equal distinct objects; one case = one FmtStr with the three column values. RANDOM part: longer "
         "FmtStrs (up to 5 runs, random attributes, spaces, more wide/combining characters) with random columns 2..12 and "
         "the out-of-range values 1, 0, -1, and a malformed stream with control characters (ValueError). Widths are read "
-        "from cwcwidth at run time and handed to Coq with the case. Observation: list(f.width_aware_splitlines(n)) as "
+        "from cwcwidth at run time and handed to Coq with the case. Half of the cases consume the wraps for their column values one after the other with list(), the other half "
+        "keep all of them alive as generators and advance them in turn. Observation: list(f.width_aware_splitlines(n)) as "
         "per-character cells per line, exception class. non-trivial = a wide character is pushed to the next line "
         "(padding) or a zero-width character is present; distinct = distinct (runs, columns)")
 TRUSTED = [
@@ -120,8 +121,39 @@ def _guarded(thunk):
         signal.signal(signal.SIGALRM, old)
 
 
+def _interleaved(f, cols):
+    """the wraps for all column values as generators that are alive at the same time and advanced in turn (side by
+    side layout, zip() of two wraps): each must behave as if it were alone"""
+    gens, res = [], []
+    for n in cols:
+        try:
+            gens.append(f.width_aware_splitlines(n))
+            res.append(["ok", []])
+        except Exception as e:  # noqa
+            gens.append(None)
+            res.append(["raise", canon.exn_name(e)])
+    live = [g is not None for g in gens]
+    while any(live):
+        for i, g in enumerate(gens):
+            if not live[i]:
+                continue
+            try:
+                res[i][1].append(canon.canon_fs(next(g)))
+            except StopIteration:
+                live[i] = False
+            except Exception as e:  # noqa   (list() of a generator that raises loses the lines yielded before)
+                live[i] = False
+                res[i] = ["raise", canon.exn_name(e)]
+    return res
+
+
 def run(inp):
     f = canon.build_fs(inp["runs"], inp.get("share"))
+    if (len(inp["runs"]) + len(inp["columns"]) + sum(len(s) for s, _ in inp["runs"])) % 2:
+        try:
+            return _guarded(lambda: _interleaved(f, inp["columns"]))
+        except Hang:
+            return [["raise", "OtherError"] for _ in inp["columns"]]
     return [canon.outcome(lambda: _guarded(lambda: list(f.width_aware_splitlines(n))),
                           lambda ls: [canon.canon_fs(x) for x in ls])
             for n in inp["columns"]]
